@@ -7,12 +7,59 @@ ALPHA = ["\\", "'", '"', "\0", "\b", "\t", "\x1a", "\n", "\r", "0", "b", "t", "z
 BACKENDS = ["my", "pg", "sl"]
 
 
+def mine_literals():
+    """string and char literals of the source files that implement EscapeBuilder (Rust escapes decoded)"""
+    import glob
+    import re
+    out = set()
+    esc = {"n": "\n", "r": "\r", "t": "\t", "0": "\0", "\\": "\\", "'": "'", '"': '"'}
+
+    def unesc(body):
+        def rep(m):
+            x = m.group(1)
+            if x in esc:
+                return esc[x]
+            if x.startswith("x"):
+                return chr(int(x[1:], 16))
+            if x.startswith("u{"):
+                return chr(int(x[2:-1], 16))
+            return x
+        return re.sub(r"\\(x[0-9a-fA-F]{2}|u\{[0-9a-fA-F]+\}|.)", rep, body)
+    for f in glob.glob("/repo/src/backend/*.rs") + glob.glob("/repo/src/backend/*/*.rs"):
+        src = open(f, encoding="utf-8").read()
+        if "EscapeBuilder" not in src:
+            continue
+        for m in re.finditer(r'"((?:[^"\\\n]|\\.)*)"', src):
+            out.add(unesc(m.group(1)))
+        for m in re.finditer(r"'((?:[^'\\\n]|\\.)+)'", src):
+            t = unesc(m.group(1))
+            if len(t) <= 2:
+                out.add(t)
+    return sorted(x for x in out if 0 < len(x) <= 40 and "{" not in x)
+
+
 def gen_cases(ctx):
     lines = []
     maxlen = 3 if ctx.quick else 4
     for s in gens.shortlex(ALPHA, maxlen):
         for b in BACKENDS:
             lines.append("esc %s %s" % (b, hexs(s)))
+    # a dictionary mined from the CURRENT source: every string / char literal of the files that implement
+    # EscapeBuilder, alone, between quotes and joined in pairs (an escaper that splices a marker text into its output
+    # is ambiguous exactly on strings that contain the marker)
+    mined = mine_literals()
+    dict_cases = set()
+    for d in mined:
+        for s in (d, "'" + d + "'", "a" + d + "b", d + d, d.replace("'", "")):
+            dict_cases.add(s)
+    short = [d for d in mined if len(d) <= 4][:40]
+    for d1 in short:
+        for d2 in short:
+            dict_cases.add(d1 + d2)
+    for s in sorted(dict_cases):
+        for b in BACKENDS:
+            lines.append("esc %s %s" % (b, hexs(s)))
+    ctx.cov["mined_literals"] = len(mined)
     n = 3000 if ctx.quick else 60000
     for _ in range(n):
         s = gens.rand_string(ctx.rng, 16)
